@@ -105,6 +105,11 @@ impl Iterator for FollowFileIterator {
             // If we get an EOF in the middle of a line, read_line will return.
             // We will then try again and use content of current read line
             if !self.line.ends_with('\n') {
+                #[cfg(feature = "verif_hooks")]
+                if !verif_hooks::follow_retry() {
+                    return None;
+                }
+
                 continue;
             }
 
@@ -143,5 +148,42 @@ impl<T> IterExt<T> for Vec<T> {
         }
 
         Ok(results)
+    }
+}
+
+#[cfg(feature = "verif_hooks")]
+pub mod verif_hooks {
+    use std::cell::RefCell;
+
+    thread_local! {
+        static FOLLOW_RETRY: RefCell<Option<Box<dyn FnMut() -> bool>>> = RefCell::new(None);
+        static ON_LINE: RefCell<Option<Box<dyn FnMut(&str)>>> = RefCell::new(None);
+    }
+
+    /// Called by FollowFileIterator when it saw end-of-file without a complete line; false ends the iteration.
+    pub fn set_follow_retry_hook(hook: Option<Box<dyn FnMut() -> bool>>) {
+        FOLLOW_RETRY.with(|cell| *cell.borrow_mut() = hook);
+    }
+
+    pub fn follow_retry() -> bool {
+        FOLLOW_RETRY.with(|cell| {
+            match cell.borrow_mut().as_mut() {
+                Some(hook) => hook(),
+                None => true
+            }
+        })
+    }
+
+    /// Called by the batch loop ("batch") and the joined-file loader ("join") before each input line is looked at.
+    pub fn set_on_line_hook(hook: Option<Box<dyn FnMut(&str)>>) {
+        ON_LINE.with(|cell| *cell.borrow_mut() = hook);
+    }
+
+    pub fn on_line(site: &str) {
+        ON_LINE.with(|cell| {
+            if let Some(hook) = cell.borrow_mut().as_mut() {
+                hook(site);
+            }
+        })
     }
 }
